@@ -4,7 +4,7 @@
   `fix:` commits (D5 Remove, D16 CopyInto, D17 getOrCreate); the unchanged code is pinned by the `…_orig_…` witnesses.
   Clause checklist at the end.
 -/
-import Qfx.Lemmas.Codec
+import Qfx.Lemmas.CodecBuild
 open Qfx Qfx.Spec
 
 /-- "tag order list vs tag lookup map: two views of the same field set that must stay in step" —
@@ -162,6 +162,43 @@ theorem C10_build_sections (m : Message) (hm : MInv m) (bytes : Bytes) (m' : Mes
       bytes = (m1.header.write m1.fields).1 ++ (m1.body.write m1.fields).1 ++ (m1.trailer.write m1.fields).1 :=
   hm.build bytes m' h
 
+/-- MAIN THEOREM (byte level).  "with BeginString, BodyLength and MsgType first … and CheckSum last; BodyLength equals the byte
+    count between the BodyLength field and the CheckSum field, and CheckSum equals the byte sum modulo 256 in three digits."
+
+    For EVERY sequence of Message API operations (raw and typed setters, overwrite, remove, clear, set again, group set,
+    copy, intermediate builds) whose tags are in their proper section (`MOp.proper`: 8 and 9 only in the header, 10 only
+    in the trailer, groups and their members never tagged 8 / 9 / 10), if BeginString and MsgType are set, the bytes of
+    `build` are
+        <BeginString field> ++ 9=<N>␁ ++ MID ++ 10=<ddd>␁
+    where MID starts with the MsgType field, N = length of MID, ddd = three-digit (sum of all preceding bytes) mod 256. -/
+theorem C10_build_wf (ops : List MOp) (hp : ∀ op ∈ ops, op.proper) (m : Message) (hrun : runMOps ops Message.new = .ok m)
+    (h8 : (alFind m.header.lookup 8).isSome = true) (h35 : (alFind m.header.lookup 35).isSome = true)
+    (bytes : Bytes) (m' : Message) (hbuild : m.build Fixes.cur = .ok (bytes, m')) :
+    ∃ (tv8 : TagValue) (f35 : Field) (mid rest : Bytes),
+      alFind m.header.lookup 8 = some (.owned [tv8]) ∧ tv8.tag = 8 ∧ alFind m.header.lookup 35 = some f35 ∧
+      mid = fieldBytes m.fields f35 ++ rest ∧
+      bytes = (tv8.bytes ++ (TagValue.init 9 (fmtNat mid.length)).bytes ++ mid) ++
+        (TagValue.init 10 (digitsW 3 ((tv8.bytes ++ (TagValue.init 9 (fmtNat mid.length)).bytes ++ mid).sum % 256))).bytes := by
+  have hb : Built m := runMOps_built ops _ m Built.new hp hrun
+  cases hf8 : alFind m.header.lookup 8 with
+  | none => rw [hf8] at h8; cases h8
+  | some f8 =>
+    cases hf35 : alFind m.header.lookup 35 with
+    | none => rw [hf35] at h35; cases h35
+    | some f35 =>
+      obtain ⟨l, hl⟩ := hb.ph.owned 8 f8 hf8
+      subst hl
+      obtain ⟨tv, rest, hl, ht⟩ := hb.ph.head 8 l hf8
+      subst hl
+      have hone := (hb.ph.special 8 _ hf8 tv (by simp) (Or.inl ht)).1
+      rw [hone] at hf8
+      obtain ⟨mid, r, hmid, hbytes⟩ := build_structure m hb tv f35 hf8 hf35 bytes m' hbuild
+      exact ⟨tv, f35, mid, r, by rw [hone], ht, rfl, hmid, hbytes⟩
+
+/-- the hypotheses of `C10_build_wf` are an invariant: they hold again after the build (and any further proper operations) -/
+theorem C10_built_invariant (ops : List MOp) (hp : ∀ op ∈ ops, op.proper) (m : Message) (hrun : runMOps ops Message.new = .ok m) :
+    Built m := runMOps_built ops _ m Built.new hp hrun
+
 /-! ## the unchanged code (witnesses, replayed on the implementation by the correspondence: known_findings.json `fixed`) -/
 
 /-- D5: with the ORIGINAL `Remove` the order list keeps the removed tag, so `Remove(t); Set(t)` lists `t` twice -/
@@ -198,10 +235,10 @@ example : ∃ m, runFOps [.set (TagValue.init 58 [97]), .remove 58, .set (TagVal
 /- Clause checklist (properties.jsonl C10):
    "every field currently set exactly once … no removed field"   C10_invariant, C10_write_each_once, C10_remove_gone
    "with its latest value"                                         C10_set_latest
-   "BeginString, BodyLength and MsgType first"                     C10_header_first3 (order list) + C10_write_each_once
+   "BeginString, BodyLength and MsgType first"                     C10_build_wf (bytes); C10_header_first3 (order list) + C10_write_each_once
    "header before body before trailer"                             C10_build_sections, C10_message_invariant
-   "CheckSum last"                                                 C10_trailer_checksum_last
-   "BodyLength equals the byte count … CheckSum equals the sum"    C10_length_total_accounting, C10_cook_values
+   "CheckSum last"                                                 C10_build_wf (bytes); C10_trailer_checksum_last
+   "BodyLength equals the byte count … CheckSum equals the sum"    C10_build_wf (bytes); C10_length_total_accounting, C10_cook_values
    "Parsing those bytes yields the same fields and values"         C10_parse_build_full (monitor clause reparse_ok / reparse_same_fields)
    "a copied message serialises identically to its source"         C10_copy_writes_same, C10_copy_length_total_same (monitor copy_identical)
    scanner-level well-formedness of the whole output               C10_build_wf_full (monitor clauses once_each … checksum)
